@@ -16,9 +16,10 @@ import (
 // of its attributes as emitted and one with the attributes sorted (so that a pure attribute-order difference can be
 // told from a difference in content).
 var (
-	detOn  = os.Getenv("VERIF_DET") == "1"
-	detRes = sha256.New()
-	detEvs [][3]string
+	detOn   = os.Getenv("VERIF_DET") == "1"
+	detRes  = sha256.New()
+	detEvs  [][3]string
+	detRecs []string // the result records of the window, fingerprinted one by one (tx records keep their gas figures readable)
 )
 
 func fp(s string) string { h := sha256.Sum256([]byte(s)); return hex.EncodeToString(h[:6]) }
@@ -28,6 +29,20 @@ func DetRecord(result string, events []abci.Event) {
 		return
 	}
 	fmt.Fprintf(detRes, "%s\n", result)
+	if strings.HasPrefix(result, "tx|") {
+		// tx|code|codespace|data|gasWanted|gasUsed -> code, fingerprint of codespace and data, gasWanted, gasUsed
+		f := strings.Split(result, "|")
+		if len(f) == 6 {
+			detRecs = append(detRecs, "tx|"+f[1]+"|"+fp(f[2]+"|"+f[3])+"|"+f[4]+"|"+f[5])
+		} else {
+			detRecs = append(detRecs, "tx?"+fp(result))
+		}
+	} else {
+		detRecs = append(detRecs, fp(result))
+	}
+	if os.Getenv("VERIF_DET_DEBUG") != "" {
+		fmt.Fprintf(os.Stderr, "DETRES %s\n", result)
+	}
 	for _, ev := range events {
 		var attrs []string
 		for _, a := range ev.Attributes {
@@ -48,8 +63,13 @@ func DetSnapshot() M {
 	for _, e := range detEvs {
 		evs = append(evs, []string{e[0], e[1], e[2]})
 	}
-	m := M{"res": hex.EncodeToString(detRes.Sum(nil))[:16], "evs": evs}
+	recs := make([]interface{}, 0, len(detRecs))
+	for _, r := range detRecs {
+		recs = append(recs, r)
+	}
+	m := M{"res": hex.EncodeToString(detRes.Sum(nil))[:16], "evs": evs, "recs": recs}
 	detRes.Reset()
 	detEvs = nil
+	detRecs = nil
 	return m
 }
